@@ -48,8 +48,10 @@ impl AsyncUdpSocket for SimQuicSocket {
     }
 
     fn try_send(&self, transmit: &Transmit) -> io::Result<()> {
-        // max_transmit_segments() == 1: one datagram per transmit
-        self.inner.send_now(transmit.contents, transmit.destination).map(|_| ())
+        // max_transmit_segments() == 1: one datagram per transmit. Like quinn-udp's sendmsg wrapper, errors other than
+        // WouldBlock are swallowed (the datagram counts as lost, QUIC's own recovery deals with it).
+        let _ = self.inner.send_now(transmit.contents, transmit.destination);
+        Ok(())
     }
 
     fn poll_recv(&self, cx: &mut Context, bufs: &mut [IoSliceMut<'_>], meta: &mut [RecvMeta]) -> Poll<io::Result<usize>> {
